@@ -60,7 +60,7 @@ def _exec(con, st):
     return rows
 
 
-def run_pair(c):
+def run_pair(c, must_parse=True):
     """a = the crate's rendering (inline, or parameterised with its values), b = the independently written explicit SQL: same fixture on two
     fresh engines; result rows (RETURNING rows) and the table contents afterwards must agree.  -> None or (observed, expected)"""
     ca, cb = sqlite3.connect(":memory:"), sqlite3.connect(":memory:")
@@ -85,7 +85,15 @@ def run_pair(c):
         if ea is not None and eb is None:
             return ("SQLite %s: %s  <-  %s" % (sqlite3.sqlite_version, ea, desc), "accepted, like the explicit statement: " + c["b"]["s"])
         if ea is not None and eb is not None:
-            return None   # both rejected by the engine (e.g. a constraint violation in both): nothing to compare
+            # both rejected: a run-time refusal common to both (e.g. a constraint violation) leaves nothing to compare, but a statement the engine
+            # cannot even PARSE is never `accepted by a real SQLite engine` - and an oracle that does not parse is an oracle problem, not agreement
+            if not must_parse:
+                return None   # C09 compares the backends' renderings with each other: identically rejected is not a difference (acceptance is C07's claim)
+            if "syntax error" in eb:
+                return ("rejected: " + desc, "ORACLE PROBLEM: the reference statement does not parse on SQLite %s (%s): %s" % (sqlite3.sqlite_version, eb, c["b"]["s"]))
+            if "syntax error" in ea:
+                return ("SQLite %s: %s  <-  %s" % (sqlite3.sqlite_version, ea, desc), "the engine accepts the statement")
+            return None
         if not c.get("ordered"):
             ra, rb = sorted(ra, key=repr), sorted(rb, key=repr)
         if ra != rb:
@@ -114,7 +122,7 @@ def run_cases(lines, prop):
         n += 1
         if "fixture" in c:
             nq += 2 + 2 * len(c["snaps"])
-            r = run_pair(c)
+            r = run_pair(c, must_parse=(prop == "C07"))
         else:
             nq += len(c["checks"]) + len(c["steps"])
             r = run_case(c)
